@@ -223,6 +223,10 @@ func (p *PeerScoreParams) validate() error {
 		}
 	}
 
+	if isInvalidNumber(p.BehaviourPenaltyDecay) {
+		return fmt.Errorf("invalid BehaviourPenaltyDecay; must be a valid number")
+	}
+
 	// check the decay parameters
 	if !p.SkipAtomicValidation || p.DecayInterval != 0 || p.DecayToZero != 0 {
 		if p.DecayInterval < time.Second {
@@ -311,6 +315,9 @@ func (p *TopicScoreParams) validateMessageDeliveryParams() error {
 	if p.FirstMessageDeliveriesWeight < 0 || isInvalidNumber(p.FirstMessageDeliveriesWeight) {
 		return fmt.Errorf("invallid FirstMessageDeliveriesWeight; must be positive (or 0 to disable) and a valid number")
 	}
+	if isInvalidNumber(p.FirstMessageDeliveriesDecay) {
+		return fmt.Errorf("invalid FirstMessageDeliveriesDecay; must be a valid number")
+	}
 	if p.FirstMessageDeliveriesWeight != 0 && (p.FirstMessageDeliveriesDecay <= 0 || p.FirstMessageDeliveriesDecay >= 1 || isInvalidNumber(p.FirstMessageDeliveriesDecay)) {
 		return fmt.Errorf("invalid FirstMessageDeliveriesDecay; must be between 0 and 1")
 	}
@@ -339,6 +346,9 @@ func (p *TopicScoreParams) validateMeshMessageDeliveryParams() error {
 
 	if p.MeshMessageDeliveriesWeight > 0 || isInvalidNumber(p.MeshMessageDeliveriesWeight) {
 		return fmt.Errorf("invalid MeshMessageDeliveriesWeight; must be negative (or 0 to disable) and a valid number")
+	}
+	if isInvalidNumber(p.MeshMessageDeliveriesDecay) {
+		return fmt.Errorf("invalid MeshMessageDeliveriesDecay; must be a valid number")
 	}
 	if p.MeshMessageDeliveriesWeight != 0 && (p.MeshMessageDeliveriesDecay <= 0 || p.MeshMessageDeliveriesDecay >= 1 || isInvalidNumber(p.MeshMessageDeliveriesDecay)) {
 		return fmt.Errorf("invalid MeshMessageDeliveriesDecay; must be between 0 and 1")
@@ -372,6 +382,9 @@ func (p *TopicScoreParams) validateMessageFailurePenaltyParams() error {
 
 	if p.MeshFailurePenaltyWeight > 0 || isInvalidNumber(p.MeshFailurePenaltyWeight) {
 		return fmt.Errorf("invalid MeshFailurePenaltyWeight; must be negative (or 0 to disable) and a valid number")
+	}
+	if isInvalidNumber(p.MeshFailurePenaltyDecay) {
+		return fmt.Errorf("invalid MeshFailurePenaltyDecay; must be a valid number")
 	}
 	if p.MeshFailurePenaltyWeight != 0 && (isInvalidNumber(p.MeshFailurePenaltyDecay) || p.MeshFailurePenaltyDecay <= 0 || p.MeshFailurePenaltyDecay >= 1) {
 		return fmt.Errorf("invalid MeshFailurePenaltyDecay; must be between 0 and 1")
